@@ -987,8 +987,20 @@ def dedup_strings(an, rep):
                 okk = arg[0] == "un" and arg[1] == "Neg" and "StringAlreadyStored" in show(arg) and ".id" in show(arg)
             R.check(okk, w.key, "repeat", "a repeated string must be written as VarI32(-id) and nothing else: %s" %
                     [c[2] for c in writes], None, sample={"repeat": "write_var_i32(-id)"})
+        elif v == "StringIsNew" and outcome_of(p)[0] == "errprop" and not writes:
+            pass        # the length did not fit: nothing was written
         elif v == "StringIsNew":
-            okk = len(writes) == 1 and writes[0][2] == "<String as BinarySerializer>::serialize" and "StringIsNew" in show(writes[0][5][0])
+            okk = len(writes) == 1 and writes[0][2] in ("<String as BinarySerializer>::serialize", "<str as BinarySerializer>::serialize") \
+                and ("StringIsNew" in show(writes[0][5][0]) or "$self" in show(writes[0][5][0]))
+            if not okk and len(writes) == 2:
+                # the plain-string layout written in place (shared helper): VarI32(len of the string), its UTF-8 bytes
+                a0, a1 = writes[0][5][1], writes[1][5][1]
+                src = lambda t: "StringIsNew" in show(t) or "$self" in show(t)
+                is_len = any((x[0] == "len") or (x[0] == "call" and (x[1] in guards.PURE_LEN or x[1].endswith("::len")))
+                             for x in mir.walk_expr(a0))
+                is_bytes = any(x[0] == "call" and x[1] in ("str::as_bytes", "String::as_bytes") for x in mir.walk_expr(a1))
+                okk = writes[0][3] == "BinaryOutput::write_var_i32" and writes[1][3] == "BinaryOutput::write_bytes" and \
+                    is_len and is_bytes and src(a0) and src(a1)
             R.check(okk, w.key, "first occurrence", "a new string must be written exactly like a plain String: %s" %
                     [c[2] for c in writes], None, sample={"first": "<String as BinarySerializer>::serialize(value)"})
     R.check(rows == {"StringAlreadyStored", "StringIsNew"}, w.key, "rows", "rows found: %s" % sorted(rows))
